@@ -4,6 +4,7 @@ package main
 // for library functions, Detector type contract for dynamic calls) and loops.
 
 import (
+	"sort"
 	"fmt"
 	"go/types"
 	"strings"
@@ -763,6 +764,51 @@ func (f *frame) invariants(st *State, li *loopInfo, ls *LoopSpec) (labels []stri
 			variant = nil
 			for _, d := range ls.Decreases {
 				variant = append(variant, env.evalInt(d))
+			}
+		}
+	}
+	// loop annotations of the function under verification that no longer find their loop there
+	// (the loop was moved into a helper that is executed in place) are offered as candidate
+	// invariants to the loops of such helpers; like all candidates they are proved or dropped
+	if f.inlined && f.con == nil && ex.top != nil && ex.top.con != nil && !ex.initMode {
+		nTop := len(ex.top.loops)
+		var ords []int
+		for k := range ex.top.con.Loops {
+			if k > nTop {
+				ords = append(ords, k)
+			}
+		}
+		sort.Ints(ords)
+		for _, k := range ords {
+			for _, c := range ex.top.con.Loops[k].Invariants {
+				full := fmt.Sprintf("auto.orphan%d.%s", k, c.Label)
+				if !ex.prog.autoAlive(f.loopKey(li), full) {
+					continue
+				}
+				var t T
+				ok := func() (ok bool) {
+					defer func() {
+						if r := recover(); r != nil {
+							ok = false
+						}
+					}()
+					env := f.specEnvInv(st)
+					env.skipBlocks = map[*ssa.BasicBlock]bool{}
+					for b := range li.blocks {
+						if b != li.header {
+							env.skipBlocks[b] = true
+						}
+					}
+					if ex.top.entry != nil {
+						env.old = ex.top.entry
+					}
+					t = env.evalBool(c.E)
+					return true
+				}()
+				if ok {
+					labels = append(labels, full)
+					terms = append(terms, t)
+				}
 			}
 		}
 	}
